@@ -1,6 +1,7 @@
 #![allow(dead_code)]
 //! `vh <ID> <quick|thorough>` | `vh <ID> --replay <file>` | `vh selftest`
 mod clock;
+mod hist;
 mod model;
 mod props;
 mod render;
